@@ -22,6 +22,7 @@ func (fr *Frame) call(c *ssa.CallCommon, instr *ssa.Call, st *State, pos token.P
 	} else if fv := fr.val(c.Value); fv.Fn != nil {
 		name = fr.fx.eng.shortName(fv.Fn)
 	}
+	fr.anchoredAsserts(name, c, st, pos)
 	res := fr.call1(c, instr, st, pos)
 	fr.recordErrProp(name, res, c.Signature(), st, pos)
 	return res
@@ -78,6 +79,8 @@ func (fr *Frame) call1(c *ssa.CallCommon, instr *ssa.Call, st *State, pos token.
 	// dynamic call through a function value
 	if p, ok := c.Value.(*ssa.Parameter); ok && fr.top && fx.contract != nil {
 		if fs := fx.contract.FnSpecs[p.Name()]; fs != nil {
+			fr.fnspecOuter = true
+			defer func() { fr.fnspecOuter = false }()
 			return fr.applyContract(fs, nil, c.Signature(), fx.eng.shortName(fx.fn)+"/"+p.Name(), args, nil, st, pos, instr)
 		}
 	}
@@ -299,6 +302,12 @@ func (fr *Frame) contractEnv(ct *FuncContract, fn *ssa.Function, sig *types.Sign
 	}
 	if env.pkg == nil && fr.fn.Pkg != nil {
 		env.pkg = fr.fn.Pkg.Pkg
+	}
+	if fr.fnspecOuter {
+		// a fnspec is written in the scope of the enclosing function: its parameters are visible
+		for _, p := range fr.fn.Params {
+			env.vars[p.Name()] = SVal{V: fr.val(p), Ty: p.Type()}
+		}
 	}
 	names := sigParamNames(sig, fn, ct)
 	tys := sigParamTypes(sig, fn, len(args))
@@ -951,4 +960,75 @@ func (fx *FnExec) pureUF(name string, args []Val, tys []types.Type, rt types.Typ
 	}
 	uf := fx.ctx.DeclFun("fn!"+name, ss, sortOf(rt))
 	return App(sortOf(rt), uf, ts...)
+}
+
+
+// anchoredAsserts checks `assert @call:<glob> expr` clauses of the function under verification at a call site.
+// In expr, arg0..argN are the actual arguments (arg0 = receiver of an interface call) and `it` ranges over the
+// string-typed arguments (one obligation per string argument).
+func (fr *Frame) anchoredAsserts(name string, c *ssa.CallCommon, st *State, pos token.Pos) {
+	fx := fr.fx
+	if !fr.top || fx.contract == nil || len(fx.contract.Asserts) == 0 {
+		return
+	}
+	for _, a := range fx.contract.Asserts {
+		if !strings.HasPrefix(a.Anchor, "call:") {
+			continue
+		}
+		pat := strings.TrimPrefix(a.Anchor, "call:")
+		if !globMatch(pat, name) {
+			continue
+		}
+		var vals []Val
+		var tys []types.Type
+		if c.IsInvoke() {
+			vals = append(vals, fr.val(c.Value))
+			tys = append(tys, c.Value.Type())
+		}
+		for _, x := range c.Args {
+			vals = append(vals, fr.val(x))
+			tys = append(tys, x.Type())
+		}
+		env := fr.specEnv(st, nil, nil)
+		// locals visible at this block
+		if len(fr.fn.Blocks) > 0 {
+			env.at = nil
+		}
+		for i := range vals {
+			env.vars[fmt.Sprintf("arg%d", i)] = SVal{V: vals[i], Ty: tys[i]}
+		}
+		usesIt := false
+		ast.Inspect(a.Clause.Expr, func(n ast.Node) bool {
+			if id, ok := n.(*ast.Ident); ok && id.Name == "it" {
+				usesIt = true
+			}
+			return true
+		})
+		label := a.Clause.Label
+		if label == "" {
+			label = "assert"
+		}
+		if usesIt {
+			for i := range vals {
+				if tys[i] == nil || sortOf(tys[i]) != SString {
+					continue
+				}
+				e2 := env.child()
+				e2.vars["it"] = SVal{V: vals[i], Ty: tys[i]}
+				g, err := e2.evalBool(a.Clause.Expr)
+				if err != nil {
+					fx.unsupported = append(fx.unsupported, fmt.Sprintf("assert @%s: %v", a.Anchor, err))
+					continue
+				}
+				fx.oblige(st, "assert", fmt.Sprintf("%s@%s.arg%d", label, lastSeg(name), i), g, pos)
+			}
+			continue
+		}
+		g, err := env.evalBool(a.Clause.Expr)
+		if err != nil {
+			fx.unsupported = append(fx.unsupported, fmt.Sprintf("assert @%s: %v", a.Anchor, err))
+			continue
+		}
+		fx.oblige(st, "assert", fmt.Sprintf("%s@%s", label, lastSeg(name)), g, pos)
+	}
 }
